@@ -353,4 +353,14 @@ def r09_5_returndata(repo: Repo, rep: Report):
     rep.check("R09.5", v is not UNKNOWN and set(v) == {0xF0, 0xF5}, m, ic, f"is_create: call_scheme in {v}", "is_create must recognise CREATE and CREATE2")
 
 
-RULES = [r09_1_snapshot_restore, r09_2_message_construction, r09_3_static_context, r09_4_value_transfer, r09_5_returndata]
+def r09_6_shared(repo: Repo, rep: Report):
+    """the context a call sees (sender under prank, frame state) must not be shared between sibling paths or frames:
+    fork-copy completeness and the absence of custom copy hooks (shared with C20 / C14)"""
+    from hsa.rules.c14 import r14_1_prank_consumption
+    from hsa.rules.c20 import r20_1_fork_copies
+
+    r20_1_fork_copies(repo, rep)
+    r14_1_prank_consumption(repo, rep)
+
+
+RULES = [r09_1_snapshot_restore, r09_2_message_construction, r09_3_static_context, r09_4_value_transfer, r09_5_returndata, r09_6_shared]
